@@ -109,7 +109,9 @@ def rowOk : Schema → Row → Bool
 
 /-! ## schema mappings (generateSchemaMappings / findNonPKColumnMappingByTagOrName) -/
 
-def findCol (sch : Schema) (id : Nat) : Option Nat := sch.findIdx? (fun c => c.id == id)
+def findCol : Schema → Nat → Option Nat
+  | [], _ => none
+  | c :: cs, id => if c.id == id then some 0 else (findCol cs id).map (· + 1)
 
 /-- for every column of `dst`, its index in `src` (`none` = -1) -/
 def mapping (dst src : Schema) : List (Option Nat) := dst.map (fun c => findCol src c.id)
